@@ -25,6 +25,7 @@ def setup_repo():
     os.environ.setdefault('PYTHONHASHSEED', '0')
     import logging
     logging.disable(logging.CRITICAL)
+    sys.unraisablehook = lambda *a, **k: None      # abandoned ZipFile objects of failed dump_to_zip runs
     import warnings
     warnings.filterwarnings('ignore')
     import dataflows  # noqa
